@@ -1,7 +1,32 @@
 use time::OffsetDateTime;
 
 fn now() -> i64 {
+    #[cfg(gmsol_verif)]
+    if let Some(ts) = verif::now_override() {
+        return ts;
+    }
     OffsetDateTime::now_utc().unix_timestamp()
+}
+
+/// Verification hook (runtime monitors in `/verif`): thread-local override of the wall clock
+/// consulted first by `now()`. Compiled only with `--cfg gmsol_verif`.
+#[cfg(gmsol_verif)]
+pub mod verif {
+    use std::cell::Cell;
+
+    thread_local! {
+        static NOW_OVERRIDE: Cell<Option<i64>> = const { Cell::new(None) };
+    }
+
+    /// Set (or clear with `None`) the unix timestamp returned by the model clock on this thread.
+    pub fn set_now_override(ts: Option<i64>) {
+        NOW_OVERRIDE.with(|c| c.set(ts));
+    }
+
+    /// Get the current override.
+    pub fn now_override() -> Option<i64> {
+        NOW_OVERRIDE.with(|c| c.get())
+    }
 }
 
 pub(super) struct AsClock<'a> {
